@@ -720,3 +720,22 @@ _PATCH_REGISTRATIONS[math.fabs] = _fabs
 import crosshair.libimpl.builtinslib as _bl
 
 _bl._PYTYPE_TO_WRAPPER_TYPE[float] = ((RealBasedSymbolicFloat, 1.0),)
+
+
+# hash(): CrossHair's patch insists on a Python-int-sized result and chokes on numpy/trimesh
+# objects (uint64 hashes).  Library objects are hashed natively, outside tracing.
+_ch_hash = _PATCH_REGISTRATIONS.get(hash)
+
+
+def _hash(obj):
+    mod = type(obj).__module__ or ""
+    if mod.split(".")[0] in ("trimesh", "numpy", "shapely", "scipy", "fcl", "rtree"):
+        with NoTracing():
+            return int(type(obj).__hash__(obj)) & ((1 << 61) - 1)
+    if _ch_hash is not None:
+        return _ch_hash(obj)
+    with NoTracing():
+        return hash(obj)
+
+
+_PATCH_REGISTRATIONS[hash] = _hash
